@@ -308,7 +308,7 @@ def redshift_values(draw, n, edges):
 
 
 @st.composite
-def scene_case(draw, theta_max, edges, ncat, *, max_patches=5, max_per_patch=8, need_z=(), weights="any", base=None):
+def scene_case(draw, theta_max, edges, ncat, *, min_patches=1, max_patches=5, max_per_patch=8, need_z=(), weights="any", base=None):
     """
     Sky scene: K patch centres on a jittered 3x3 tangent-plane grid whose spacing
     is drawn *relative to theta_max*; per catalog and per patch an independent
@@ -318,7 +318,7 @@ def scene_case(draw, theta_max, edges, ncat, *, max_patches=5, max_per_patch=8, 
     """
     if base is None:
         base = draw(st.one_of(st.sampled_from(BASES), st.tuples(floats(0.0, 2 * math.pi - 1e-9), floats(-1.0, 1.0).map(math.asin))))
-    K = draw(st.integers(1, max_patches))
+    K = draw(st.sampled_from([k for k in range(min_patches, max_patches + 1) for _ in range(1 if k == 1 else 2)]))
     spacing = theta_max * draw(loguniform(0.3, 6.0))
     spacing = min(spacing, 0.5)
     cells = draw(st.lists(st.sampled_from(GRID), min_size=K, max_size=K, unique=True))
